@@ -611,7 +611,7 @@ class SymInterp:
                 return env[n](*args, **kwargs)
             if n in self.builtins:
                 return self.builtins[n](*args, **kwargs)
-            std = {"len": len, "list": list, "tuple": tuple, "enumerate": lambda x: list(enumerate(x)), "range": lambda *a: list(range(*a)), "zip": lambda *a: list(zip(*a)),
+            std = {"len": len, "list": list, "tuple": tuple, "enumerate": lambda x: list(enumerate(x)), "range": lambda *a: (list(range(*a)) if len(range(*a)) <= 10 ** 6 else range(*a)), "zip": lambda *a: list(zip(*a)),
                    "str": lambda x: x if isinstance(x, str) else repr(x), "isinstance": lambda *a: False, "min": min, "max": max, "bool": bool, "int": int, "abs": abs, "slice": slice, "getattr": getattr, "setattr": setattr, "hasattr": hasattr, "dict": dict, "reversed": lambda x: list(reversed(x)), "set": set, "sorted": sorted, "map": lambda f_, *xs: [f_(*a_) for a_ in zip(*xs)], "any": any, "all": all, "sum": sum,
                    "frozenset": frozenset, "round": round, "divmod": divmod, "type": type}
             if n in std:
